@@ -115,4 +115,6 @@ def gen(api):
         shutil.rmtree(tmp, ignore_errors=True)
     out += ("(* the length test, translated from the text: `if (n %s %s)` exits *)\n"
             "Definition sock_len_refuses (n : N) : bool := %s.\n" % (op, " ".join(bound.split()).replace("(*", "( *").replace("*)", "* )"), OPS[op]))
+    seed_extra = [os.path.join(R, "src/libcommon/fd.c")]
+    out += api.run_probe("start_seed_probe.c", extra_srcs=seed_extra, libs=["-lcrypto"])
     return api.write_gen("GenStart.v", out)
